@@ -202,10 +202,10 @@ def run(ck):
                         if (f == 0 and r != 0) or (f == 1.0 and r != 1):
                             ck.disagree(key='inv_arclength/ends', site=site, what='%s: ilength(%r) = %r' % (name, s, r), case=case, expected=f, observed=r, driver='runs')
                         back = curve.length(0, r) if r > 0 else 0.0
-                        if abs(back - s) > max(1e-12, 1e-11 * L):
+                        if not (abs(back - s) <= max(1e-12, 1e-11 * L)):
                             ck.disagree(key='inv_arclength/post-condition', site=site,
                                         what='%s scale %g: length(0, ilength(s)) = %r, s = %r' % (name, k, back, s), case=case, expected=s, observed=back, driver='runs')
-                        if uniform and abs(r - s / L) > 1e-9:
+                        if uniform and not (abs(r - s / L) <= 1e-9):
                             ck.disagree(key='inv_arclength/uniform-speed-inverse', site=site,
                                         what='%s scale %g: ilength(%r) = %r, exact s/L = %r' % (name, k, s, r, s / L), case=case, expected=s / L, observed=r, driver='runs')
                         if prev is not None and r < prev - 1e-12:
@@ -237,7 +237,7 @@ def run(ck):
             for f in (0.3, 0.77):
                 out, probes = run_recorded(curve, L * f, {'s_tol': tol})
                 ck.case(fp=(name, 'tol', tol, f), nontrivial=True)
-                if out[0] != 'ok' or abs(curve.length(0, out[1]) - L * f) > tol:
+                if out[0] != 'ok' or not (abs(curve.length(0, out[1]) - L * f) <= tol):
                     ck.disagree(key='inv_arclength/post-condition', site='svgpathtools/path.py:inv_arclength',
                                 what='%s s_tol=%g: %s' % (name, tol, out), case={'shape': name, 'tol': tol, 'frac': f}, expected='within tol', observed=str(out), driver='runs')
                 ev, _, _ = make_trace(curve, L * f, {'s_tol': tol}, out, probes)
